@@ -359,6 +359,30 @@ def build_variants(t, ty, rng, thorough):
                         r2 = copy.deepcopy(raw)
                         r2[2]["invoke"] = inv
                         out.append(r2)
+    if t == "error":
+        for rt in (16, 32, 34, 48, 64, 66, 68):         # an ERROR for every kind of request
+            raw = copy.deepcopy(base)
+            raw[1] = rt
+            out.append(raw)
+    if t in ("hello", "welcome"):
+        from autobahn.wamp import role as _role
+        import inspect as _inspect
+        for r in (("subscriber", "publisher", "caller", "callee") if t == "hello" else ("broker", "dealer")):
+            feats = [f for f in _inspect.signature(_role.ROLE_NAME_TO_CLASS[r].__init__).parameters if f not in ("self", "kwargs")]
+            for sel in ([feats] + [list(p) for p in zip(feats, feats[1:])]):
+                raw = copy.deepcopy(base)
+                d = copy.deepcopy(raw[2])
+                d["roles"] = {r: {"features": {f: True for f in sel}}}
+                raw[2] = d
+                out.append(raw)
+        raw = copy.deepcopy(base)                          # all roles at once, two features each
+        d = copy.deepcopy(raw[2])
+        d["roles"] = {}
+        for r in (("subscriber", "publisher", "caller", "callee") if t == "hello" else ("broker", "dealer")):
+            feats = [f for f in _inspect.signature(_role.ROLE_NAME_TO_CLASS[r].__init__).parameters if f not in ("self", "kwargs")]
+            d["roles"][r] = {"features": {f: True for f in feats[:2]}}
+        raw[2] = d
+        out.append(raw)
     for idv in IDS:
         if idv == 0 and t in ("unsubscribed", "unregistered"):
             continue                  # request 0 = revoked by the router, needs the id detail (covered by the C08 cases)
